@@ -42,7 +42,9 @@ Lp(p) == IF LzipFamily(p.w) THEN 0 ELSE p.lp
 Pb(p) == IF LzipFamily(p.w) THEN 2 ELSE p.pb
 
 \* ------------------------------------------------------------------ dictionary-size classes
-DictClasses == {"0", "1", "4095", "4096", "64K", "1M", "768M", "768M+1", "1.5G", "2G", "4G-16", "4G-1"}
+\* "100000" and "600000" are in range but not representable in the LZIP header byte (2^n - k * 2^(n-4)) nor as an
+\* LZMA2 property (2^n, 3 * 2^(n-1)): the container must announce a size that is not smaller than the encoder's window
+DictClasses == {"0", "1", "4095", "4096", "64K", "100000", "600000", "1M", "768M", "768M+1", "1.5G", "2G", "4G-16", "4G-1"}
 DictZero(d) == d = "0"
 DictBelowMin(d) == d \in {"0", "1", "4095"}
 DictAboveEnc(d) == d \in {"768M+1", "1.5G", "2G", "4G-16", "4G-1"}       \* beyond what the LZ encoder can index
